@@ -278,7 +278,43 @@ def rule_params_forwarded_(ctx: Ctx, rep: Report) -> None:
     rule_params_forwarded(ctx, rep, "C17.params_forwarded", ('btclib.block', 'btclib.hashes', 'btclib.p2p.compact_blocks'), 30)
 
 
+def rule_witness_kept(ctx: Ctx, rep: Report) -> None:
+    """C17.witness_kept: three places where "with its witness" is the point.
+    (a) A transaction sent for a compact block (`blocktxn`, a prefilled one) is
+    written with its witness: what it is matched by is its wtxid-based short id
+    and what it must rebuild is the block -- every `tx.serialize(...)` in the
+    compact-blocks codec names include_witness=True. (b) A block is segwit when
+    *any* transaction carries a witness, the coinbase included (its witness is
+    the commitment's nonce): `Block.is_segwit` ranges over all transactions.
+    (c) The retarget timespan is a difference of datetimes, not of
+    `.timestamp()`s -- a naive datetime's timestamp reads the machine's time
+    zone, and a window across a clock change is an hour off."""
+    rule = "C17.witness_kept"
+    cb = ctx.module("btclib.p2p.compact_blocks")
+    n = 0
+    for fi in sorted(cb.functions.values(), key=lambda f: f.qualname):
+        if fi.name != "serialize":
+            continue
+        for c in own_nodes(fi.node):
+            if isinstance(c, ast.Call) and call_name(c) == "serialize" and isinstance(c.func, ast.Attribute) and any(k.arg == "include_witness" for k in c.keywords):
+                n += 1
+                v = ctx.fold(next(k.value for k in c.keywords if k.arg == "include_witness"), cb)
+                rep.ob(rule, f"{fi.qualname}:include_witness", v is True, fi.where(c), "written with its witness" if v is True else
+                       "a transaction of a compact-block message is written without its witness: the receiver rebuilds another transaction (another wtxid), and the block's witness commitment fails")
+    bs = ctx.func(f"{BL}.Block.is_segwit")
+    its = [g_.iter for x in own_nodes(bs.node) if isinstance(x, (ast.GeneratorExp, ast.ListComp)) for g_ in x.generators] + [x.iter for x in own_nodes(bs.node) if isinstance(x, ast.For)]
+    ok = bool(its) and all(str(norm(i)) == "self.transactions" for i in its)
+    rep.ob(rule, "Block.is_segwit:all_transactions", ok, bs.where(), "every transaction, the coinbase included" if ok else
+           f"is_segwit ranges over {[str(norm(i)) for i in its]}: a block whose only witness is the coinbase's is not segwit, and its commitment is never checked")
+    nb = ctx.func(f"{PW}.next_bits")
+    ts = [c for c in own_nodes(nb.node) if isinstance(c, ast.Call) and call_name(c) == "timestamp"]
+    rep.ob(rule, "next_bits:timespan_is_a_datetime_difference", not ts and "total_seconds" in str(norm(nb.node)), nb.where(ts[0] if ts else None),
+           "(last - first).total_seconds()" if not ts else "the timespan is computed from .timestamp() values: for naive datetimes it depends on the process time zone")
+    rep.floor(rule, 4)
+
+
 RULES = [
+    ("C17.witness_kept", rule_witness_kept),
     ("C17.params_forwarded", rule_params_forwarded_),
     ("C17.own_fields", rule_own_fields),
     ("C17.filter_match", rule_filter_match),
@@ -290,6 +326,8 @@ RULES = [
 ]
 
 CONTROLS = [
+    {"rule": "C17.witness_kept", "name": "blocktxn strips the witnesses", "module": "btclib.p2p.compact_blocks",
+     "edit": lambda ctx: M.sub_expr(ctx, "btclib.p2p.compact_blocks.BlockTxn.serialize", lambda n: isinstance(n, ast.keyword) and n.arg == "include_witness", "include_witness=False")},
     {"rule": "C17.filter_match", "name": "the target cursor advances once per value", "module": BF,
      "edit": lambda ctx: M.sub_expr(ctx, f"{BF}.BasicBlockFilter.match_any", lambda n: isinstance(n, ast.While) and "targets[index] < value" in norm(n.test),
                                     lambda n: norm(n).replace("while ", "if ", 1) if False else "if targets[index] < value:\n                index += 1\n                if index == len(targets):\n                    return False")},
